@@ -15,6 +15,7 @@
 -/
 import Rtamt.Py.RunOff
 import Rtamt.Generated
+import RtamtProofs.GenOffMethods
 
 namespace Rtamt.Py
 open Rtamt Val
@@ -47,7 +48,7 @@ def noPrec : F α → Bool
     that the visitor overrides `visitX` (with a computing body or with a body that only raises). -/
 theorem genOff_table (k : Kind) :
     (lookupM k).isSome = (Generated.offlineDiscrete.handles k || Generated.offlineDiscrete.raises k) := by
-  sorry
+  cases k <;> rfl
 
 /-- Every translated method lies inside the translated subset, except the attribute access of object-typed
     variables in `visitVariable` (the branch `if node.field:`, not modelled). -/
@@ -58,12 +59,122 @@ theorem genOff_names : Gen.Off.methods.map (·.1) =
      "visitOnce", "visitHistorically", "visitSince", "visitRise", "visitFall", "visitConstant", "visitPrevious",
      "visitStrongPrevious", "visitNext", "visitStrongNext", "visitTimedPrecedes", "visitTimedOnce",
      "visitTimedHistorically", "visitTimedSince", "visitTimedAlways", "visitTimedEventually", "visitTimedUntil"] := by
-  sorry
+  rfl
+
+theorem handles_un (op : Un) : Generated.offlineDiscrete.handles op.kind = true := by cases op <;> rfl
+theorem handles_bin (op : Bin) : Generated.offlineDiscrete.handles op.kind = true := by cases op <;> rfl
+theorem handles_t1 (op : T1) : Generated.offlineDiscrete.handles op.kind = true := by cases op <;> rfl
+theorem handles_t2 (op : T2) : Generated.offlineDiscrete.handles op.kind = true := by cases op <;> rfl
+theorem handles_tb1 (op : TB1) : Generated.offlineDiscrete.handles op.kind = true := by cases op <;> rfl
 
 /-- The translated offline visitor computes what the mirror computes — values and exceptions. -/
 theorem genOff_eval (w : Rtamt.Env α) (n : Nat) (φ : F α)
     (hwf : φ.wf = true) (hpl : plain φ = true) (hnp : noPrec φ = true) :
     evalOffG w n φ = evalOff Generated.offlineDiscrete.handles w n φ := by
-  sorry
+  induction φ with
+  | var x =>
+    have h : lookupM .Variable = some Gen.Off.visitVariable := rfl
+    have h' : Generated.offlineDiscrete.handles .Variable = true := rfl
+    simp only [evalOffG, evalOff, h, h', if_true]
+    cases w.get x with
+    | error e => rfl
+    | ok l => exact visitVariable_eq l
+  | const c =>
+    have h : lookupM .Constant = some Gen.Off.visitConstant := rfl
+    have h' : Generated.offlineDiscrete.handles .Constant = true := rfl
+    simp only [evalOffG, evalOff, h, h', if_true]
+    exact visitConstant_eq c n
+  | un op φ ih =>
+    simp only [F.wf, plain, noPrec] at hwf hpl hnp
+    simp only [evalOffG, evalOff, ih hwf hpl hnp, handles_un, if_true]
+    cases evalOff Generated.offlineDiscrete.handles w n φ with
+    | error e => rfl
+    | ok s =>
+      obtain ⟨m, hm, hcall⟩ := visitUn_eq op s
+      simp only [ok_bind, hm, hcall]; rfl
+  | bin op φ ψ ihφ ihψ =>
+    simp only [F.wf, plain, noPrec, Bool.and_eq_true] at hwf hpl hnp
+    simp only [evalOffG, evalOff, ihφ hwf.1 hpl.1.2 hnp.1, ihψ hwf.2 hpl.2 hnp.2, handles_bin, if_true]
+    cases evalOff Generated.offlineDiscrete.handles w n φ with
+    | error e => rfl
+    | ok l =>
+      cases evalOff Generated.offlineDiscrete.handles w n ψ with
+      | error e => rfl
+      | ok r =>
+        simp only [ok_bind]
+        cases op with
+        | add => exact visitAddition_eq l r
+        | sub => exact visitSubtraction_eq l r
+        | mul => exact visitMultiplication_eq l r
+        | div => exact visitDivision_eq l r
+        | pow => exact visitPow_eq l r
+        | log => exact visitLog_eq l r
+        | pred c => exact visitPredicate_eq c l r
+        | and => exact visitAnd_eq l r
+        | or => exact visitOr_eq l r
+        | implies => exact visitImplies_eq l r
+        | iff => exact visitIff_eq l r
+        | xor => exact visitXor_eq l r
+        | predSat c => simp at hpl
+        | predZero => simp at hpl
+  | tmp1 op φ ih =>
+    simp only [F.wf, plain, noPrec] at hwf hpl hnp
+    simp only [evalOffG, evalOff, ih hwf hpl hnp, handles_t1, if_true]
+    cases evalOff Generated.offlineDiscrete.handles w n φ with
+    | error e => rfl
+    | ok s =>
+      simp only [ok_bind]
+      cases op with
+      | rise => exact visitRise_eq s
+      | fall => exact visitFall_eq s
+      | prev => exact visitPrevious_eq s
+      | sprev => exact visitStrongPrevious_eq s
+      | next => exact visitNext_eq s
+      | snext => exact visitStrongNext_eq s
+      | once => exact visitOnce_eq s
+      | hist => exact visitHistorically_eq s
+      | ev => exact visitEventually_eq s
+      | alw => exact visitAlways_eq s
+  | tmp2 op φ ψ ihφ ihψ =>
+    simp only [F.wf, plain, noPrec, Bool.and_eq_true] at hwf hpl hnp
+    simp only [evalOffG, evalOff, ihφ hwf.1 hpl.1 hnp.1, ihψ hwf.2 hpl.2 hnp.2, handles_t2, if_true]
+    cases evalOff Generated.offlineDiscrete.handles w n φ with
+    | error e => rfl
+    | ok l =>
+      cases evalOff Generated.offlineDiscrete.handles w n ψ with
+      | error e => rfl
+      | ok r =>
+        simp only [ok_bind]
+        cases op
+        · exact (visitSince_eq l r).trans (by split <;> rfl)
+        · exact (visitUntil_eq l r).trans (by split <;> rfl)
+  | tb1 op a b φ ih =>
+    simp only [F.wf, plain, noPrec, Bool.and_eq_true, decide_eq_true_eq] at hwf hpl hnp
+    simp only [evalOffG, evalOff, ih hwf.2 hpl hnp, handles_tb1, if_true, hwf.1]
+    cases evalOff Generated.offlineDiscrete.handles w n φ with
+    | error e => rfl
+    | ok s =>
+      simp only [ok_bind]
+      cases op with
+      | once => exact visitTimedOnce_eq a b hwf.1 s
+      | hist => exact visitTimedHistorically_eq a b hwf.1 s
+      | ev => exact visitTimedEventually_eq a b hwf.1 s
+      | alw => exact visitTimedAlways_eq a b hwf.1 s
+  | tb2 op a b φ ψ ihφ ihψ =>
+    simp only [F.wf, plain, noPrec, Bool.and_eq_true, decide_eq_true_eq] at hwf hpl hnp
+    simp only [evalOffG, evalOff, ihφ hwf.1.2 hpl.1 hnp.1.2, ihψ hwf.2 hpl.2 hnp.2]
+    cases evalOff Generated.offlineDiscrete.handles w n φ with
+    | error e => rfl
+    | ok l =>
+      cases evalOff Generated.offlineDiscrete.handles w n ψ with
+      | error e => rfl
+      | ok r =>
+        simp only [ok_bind]
+        cases op
+        · refine (visitTimedSince_eq a b hwf.1.1 l r).trans ?_
+          simp [Generated.offlineDiscrete.handles, TB2.kind, hwf.1.1]
+        · refine (visitTimedUntil_eq a b hwf.1.1 l r).trans ?_
+          simp [Generated.offlineDiscrete.handles, TB2.kind, hwf.1.1]
+        · simp at hnp
 
 end Rtamt.Py
